@@ -9,6 +9,7 @@ package c06
 import (
 	"encoding/json"
 	"fmt"
+	"math/big"
 	"strings"
 	"sync"
 	"testing"
@@ -199,6 +200,10 @@ func check(c concCase, repeat int) (msg, discard string) {
 }
 
 var templates = []string{
+	// integers beyond int64 in the shared input and in the shared code
+	".n * 3", "3 * .n", ".n * .n", "100000000000000000000 * (.k // 2)", "(.k // 2) * 100000000000000000000", ".n + 1", ".n - .m", ".n % 7", ".n / .m", "-(.n)", ".n | abs", "[.n, .m] | add", "[.n, .m] | (min, max)", ".n * 100000000000000000000",
+	"[.[]? | numbers | . * 100000000000000000000]", "[.[]? | numbers | 100000000000000000000 * .]", "[.[]? | numbers | 100000000000000000000 + .]", "(.n *= 2) | .n", "(.n += .m) | .n", "[.n, .n] | map(. * 2)", "reduce (.n, .m) as $x (1; . * $x)",
+	".n | tojson", ".n | tostring | tonumber", "[.n, .m] | sort", ".n == .m, .n < .m", "[limit(3; repeat(.n * 2))]", ".n * 0, .n * 1, .n * -1",
 	"del(.a.q)", "del(.a)", "del(.[0])", "del(.a[0], .b)", "delpaths([[\"a\",\"q\"]])", "delpaths([[\"a\"],[\"b\",\"a\"]])", ".a = 1", ".a.b = 2", ".[0] = 9", ".a += 1", ".a |= . + [1]", ".[] |= .", ".. |= .",
 	"to_entries", "with_entries(.)", "map_values(.)", "add", "sort", "sort_by(.a?)", "group_by(.a?)", "unique", "reverse", "flatten", "[paths]", "[tostream]", "tojson", "tostring", "keys", "[.[]]", "walk(.)",
 	"{\"a\":{\"q\":1,\"r\":[1,2]}} | del(.a.q)", "{\"a\":[1,2]} | .a += [3]", "[[1,2],[3]] | .[0] |= . + [4]", "[3,1,2] | sort", "{\"a\":{\"b\":1}} | del(.a.b)", "[1,2,3] as $c | $c | .[1:] = [7]", "[[1,2],[3]] | add | .[0] = 5",
@@ -213,12 +218,19 @@ var templates = []string{
 	"def f: if . > 3 then . else . + 1 | f end; 0 | f", "[limit(5; recurse(. + 1))]?", "first(.[]?)", "isempty(.[]?)", "[.[]? | tojson | fromjson]", "@json", "@base64", "ltrimstr(\"a\")?", "\"\\(.)\"",
 }
 
+func bigOf(s string) *big.Int {
+	b, _ := new(big.Int).SetString(s, 10)
+	return b
+}
+
 func inputGen() *rapid.Generator[any] {
 	fixed := []any{
 		map[string]any{"a": map[string]any{"q": 1, "r": []any{1, 2}}, "b": map[string]any{"a": 2}},
 		map[string]any{"a": []any{1, 2, map[string]any{"b": nil}}, "b": "x", "c": map[string]any{"a": 1}},
 		[]any{map[string]any{"a": 1, "b": 2}, map[string]any{"a": 3, "b": 4}}, []any{[]any{1, 2}, []any{3}}, []any{3, 1, 2}, "abcabc", "aAbB", 1, nil,
 		map[string]any{"a": map[string]any{"q": map[string]any{"z": 1}}}, []any{"abc", "bcd", "a"}, map[string]any{"a": 1, "b": []any{map[string]any{"a": map[string]any{"q": 2}}}},
+		map[string]any{"n": bigOf("100000000000000000000"), "m": bigOf("-9223372036854775809"), "k": 3}, map[string]any{"n": bigOf("18446744073709551616"), "m": bigOf("18446744073709551615"), "k": bigOf("36893488147419103232")},
+		[]any{bigOf("100000000000000000000"), 2, bigOf("-100000000000000000000"), 3},
 		[]any{map[string]any{}, map[string]any{"a": 1}, map[string]any{"b": 2}}, []any{[]any{}, []any{1}, []any{2}}, map[string]any{"a": map[string]any{}, "b": map[string]any{"x": 1}}, []any{nil, map[string]any{}, map[string]any{"c": []any{1}}},
 	}
 	return rapid.OneOf(rapid.SampledFrom(fixed), rapid.SampledFrom(fixed), gen.Value(gen.Opt{MaxDepth: 3, MaxWidth: 3, SmallInts: true}))
